@@ -53,7 +53,8 @@ def bad_values(e, rng):
     kind = t[:1]
     n = e["size"]
     if t == "CH":
-        return ["5", "None", "[1]", "1.5", "b'abc'", "True"]
+        # wrong types, and text too long for any frame (the 16-bit length field): refused, or carried faithfully
+        return ["5", "None", "[1]", "1.5", "b'abc'", "True", "'y' * 65535", "'y' * 65536", "'y' * 70000"]
     if kind in "UEL":
         top = 1 << (8 * n)
         out += [str(top), str(top + 1), "-1", str(1 << 64), str(-(1 << 63) - 1), "0.5", "3.0", "nan", "inf", "None", "'12'", "b'\\x01'", "[1, 2]",
@@ -106,7 +107,9 @@ def run(ctx):
                     vals = rng.sample(vals, 9)
                 for v in vals:
                     yield ("c15", {"_k": "%d:%s:%s" % (li, e["n"], v), "lay": l, "P0": P0.hex(), "tgt": e["n"], "value": v, "keep": sorted(structural),
-                                   "structural": 1 if e["n"] in structural else 0})
+                                   "structural": 1 if e["n"] in structural else 0,
+                                   # raw bitfields that hold a group count are part of what must be supplied when the view hides the flags
+                                   "synth": [] if l["pbf"] else sorted({x["n"] for x in l["lay"] if x["k"] == "f" and x["t"][:1] == "X" and x["x"] == 1})})
 
     run_batch(ctx, MODULE, CFG, gen(), build.OBSERVERS, sigfn, negfn, chunk=6000)
     ctx.exhaustive = False
